@@ -11,10 +11,6 @@
 #include "mem.h"
 #include <stdatomic.h>
 
-#define M_THREADS_ASSERT(pool, ret) \
-    M_RET_ASSERT(pool->shutdown == SHUTDOWN_NO, -EPERM); \
-    M_RET_ASSERT(pool->init_state & INITED_STARTED, -EPERM);  
-
 typedef enum {
     INITED_THREADS  = 0x01,     // threads are allocated
     INITED_TASKS    = 0x02,     // tasks queue is allocated
@@ -208,11 +204,17 @@ _public_ m_thpool_t *m_thpool_new(uint8_t thread_count, m_thpool_flags flags) {
 _public_ int m_thpool_add(m_thpool_t *pool, m_thpool_task task, void *arg) {
     M_PARAM_ASSERT(pool);
     M_PARAM_ASSERT(task);
-    M_THREADS_ASSERT(pool, -EPERM);
+    M_RET_ASSERT(pool->init_state & INITED_STARTED, -EPERM);
     
     int ret = pthread_mutex_lock(&pool->lock);
     if (ret) {
         return ret;
+    }
+
+    /* Shutdown flag is only ever touched behind the mutex (a running task may call us while pool is being freed) */
+    if (pool->shutdown != SHUTDOWN_NO) {
+        pthread_mutex_unlock(&pool->lock);
+        return -EPERM;
     }
 
     /*
@@ -247,11 +249,17 @@ _public_ int m_thpool_add(m_thpool_t *pool, m_thpool_task task, void *arg) {
 /* Returns number of enqueued tasks */
 _public_ ssize_t m_thpool_length(m_thpool_t *pool) {
     M_PARAM_ASSERT(pool);
-    M_THREADS_ASSERT(pool, -EPERM);
+    M_RET_ASSERT(pool->init_state & INITED_STARTED, -EPERM);
     
     int ret = pthread_mutex_lock(&pool->lock);
     if (ret) {
         return ret;
+    }
+
+    /* Shutdown flag is only ever touched behind the mutex (a running task may call us while pool is being freed) */
+    if (pool->shutdown != SHUTDOWN_NO) {
+        pthread_mutex_unlock(&pool->lock);
+        return -EPERM;
     }
     
     ssize_t len = m_queue_len(pool->tasks);
@@ -266,11 +274,17 @@ _public_ ssize_t m_thpool_length(m_thpool_t *pool) {
 /* Removes any non-running job from the queue */
 _public_ ssize_t m_thpool_clear(m_thpool_t *pool) {
     M_PARAM_ASSERT(pool);
-    M_THREADS_ASSERT(pool, -EPERM);
+    M_RET_ASSERT(pool->init_state & INITED_STARTED, -EPERM);
     
     int ret = pthread_mutex_lock(&pool->lock);
     if (ret) {
         return ret;
+    }
+
+    /* Shutdown flag is only ever touched behind the mutex (a running task may call us while pool is being freed) */
+    if (pool->shutdown != SHUTDOWN_NO) {
+        pthread_mutex_unlock(&pool->lock);
+        return -EPERM;
     }
     
     ret = m_queue_clear(pool->tasks);
